@@ -33,7 +33,7 @@ for d in sorted(glob.glob(os.path.join(ROOT, 'seeded', '*'))):
     mp = os.path.join(d, 'meta.json')
     if os.path.exists(mp):
         m = json.load(open(mp))
-        out.append('| %s | %s | %s | %s |' % (os.path.basename(d), m['property'], esc(m['needs']), esc(m['detected_by'])))
+        out.append('| %s | %s | %s | %s |' % (os.path.basename(d), m['property'], esc(m['needs']), esc(m.get('detected_by', '(being evaluated)'))))
 res = os.path.join(ROOT, 'mutants', 'RESULTS.tsv')
 if os.path.exists(res):
     rows = [l.rstrip('\n').split('\t') for l in open(res) if l.strip()]
